@@ -2,13 +2,15 @@ import Nervus.Driver.Util
 import Nervus.Driver.OKey
 import Nervus.Driver.BTree
 import Nervus.Driver.Pager
+import Nervus.Driver.Vacuum
 open Nervus.Driver
 
 /-- stream registry: one line per stream (kept one-per-line so that merges are unions) -/
 def streams : List (String × Stream) := [
   ("okey", OKeyStream.stream),
   ("btree", BTreeStream.stream),
-  ("pager", PagerStream.stream)
+  ("pager", PagerStream.stream),
+  ("vacuum", VacuumStream.stream)
 ]
 
 def main (args : List String) : IO UInt32 := do
